@@ -65,6 +65,33 @@ def leaves():
     return out
 
 
+def wide_flags():
+    """FlagsEnum over every integer width and byte order, with a flag in every byte of the integer"""
+    out = []
+    for w in (1, 2, 3, 4, 8):
+        for e in "bl":
+            flags = [["lo", 1], ["top", 1 << (8 * w - 1)]]
+            for byte in range(1, w):
+                flags.append(["y%d" % byte, 1 << (8 * byte + 1)])
+            out.append(["FlagsEnum", G.I(w, False, e), flags])
+    return out
+
+
+def namers():
+    """leaves that declare something schema-global (an enumeration, a sub-type, an instance): every ordered pair of them is
+    put into one schema, so a declaration that is shared, shadowed or numbered wrongly shows"""
+    return [["Enum", BYTE, [["a", 0], ["b", 1], ["c", 2]]], ["Enum", BYTE, [["u", 0], ["v", 1], ["w", 2]]], ["Enum", BYTE, [["a", 2], ["b", 1], ["c", 0]]],
+            ["Enum", G.I(2, False, "l"), [["a", 0], ["b", 1], ["c", 2]]], ["Enum", BYTE, [["p", 1], ["q", 2]]],
+            ["FlagsEnum", BYTE, [["a", 1], ["b", 2]]], ["FlagsEnum", BYTE, [["u", 1], ["v", 2]]], ["FlagsEnum", BYTE, [["a", 2], ["b", 1]]],
+            ["Struct", [["h0", BYTE], ["h1", G.I(2, False, "l")]]], ["Struct", [["h0", G.I(2, False, "b")], ["h1", BYTE]]],
+            ["Prefixed", BYTE, ["Struct", [["h0", BYTE], ["h1", ["GreedyBytes"]]]], False], ["Prefixed", BYTE, ["GreedyBytes"], False],
+            ["Pointer", 1, BYTE], ["Pointer", 2, G.I(2, False, "b")],
+            ["Bitwise", ["Struct", [["b0", ["BitsInteger", 3, False, False]], ["b1", ["BitsInteger", 5, False, False]]]]],
+            ["Bitwise", ["Struct", [["b0", ["BitsInteger", 5, False, False]], ["b1", ["BitsInteger", 3, False, False]]]]],
+            ["Array", 2, ["Struct", [["h0", BYTE]]]], ["RepeatUntil", ["objcmp", "==", 0], BYTE], ["PrefixedArray", BYTE, BYTE],
+            ["PascalString", BYTE, "utf8"], ["CString", "ascii"]]
+
+
 def greedy_leaves():
     return [["GreedyBytes"], ["GreedyString", "utf8"], ["GreedyRange", BYTE], ["GreedyRange", G.I(2, False, "l")], ["GreedyRange", ["VarInt"]],
             ["GreedyRange", ["Struct", [["h0", BYTE], ["h1", BYTE]]]]]
@@ -76,6 +103,16 @@ def shapes(tier):
     for x in L:
         out.append(["Struct", [["f0", x], ["f1", BYTE]]])
         out.append(["Struct", [["f0", G.I(2, False, "b")], ["f1", x], ["f2", BYTE]]])
+    for x in wide_flags():
+        out.append(["Struct", [["f0", x], ["f1", BYTE]]])
+        out.append(["Struct", [["f0", BYTE], ["f1", ["Array", 2, x]]]])
+    N = namers()
+    for x in N:
+        for y in N:
+            out.append(["Struct", [["f0", x], ["f1", y], ["f2", BYTE]]])
+    for x in N[:8]:
+        for y in N[:8]:
+            out.append(["Struct", [["f0", ["Struct", [["g0", x]]]], ["f1", ["Array", 2, y]]]])
     for x in greedy_leaves():
         out.append(["Struct", [["f0", BYTE], ["f1", x]]])
     # context dependent
